@@ -107,6 +107,8 @@ class WeightedMonitor:
             if not feq(g, w, 1e-12 * max(1.0, abs(w))):
                 ctx.violation("Aggregated.activation_degree differs from the aggregated degree of the term", {"set": agg.parameters(), "term": term.name, "row": row}, w, g)
 
+    declared: dict = {}  # id(defuzzifier) -> type name the workload configured it with
+
     def _after(self, kind):
         def after(args, kwargs, token, result, exc):
             self.judge(kind, args[0], args[1], result, exc)
@@ -120,7 +122,7 @@ class WeightedMonitor:
             return
         case = {"defuzzifier": kind, "type": dz.type.name, "set": agg.parameters(), "terms": {a.term.name: str(a.term) for a in agg.terms}}
         kinds = {kind_of(a.term) for a in agg.terms}
-        declared = dz.type.name
+        declared = self.declared.get(id(dz), dz.type.name)  # what the workload configured, when it knows; else what the object says
         ctx.evaluated()
         if declared == "Automatic":
             if len(kinds) > 1:
@@ -338,6 +340,28 @@ def run(ctx):
             out.grouped_terms()
             for _, t in specs:
                 out.activation_degree(t)
+            # one Automatic defuzzifier object: a fuzzy output it has to give up on part-way (a Linear term with the wrong number of
+            # coefficients), then an ordinary one of another family - the failure must leave nothing behind
+            if i % 4 == 0:
+                for cls in (fl.WeightedAverage, fl.WeightedSum):
+                    dz = cls()
+                    mon.declared = {id(dz): "Automatic"}
+                    for failing_family in ("ts", "tsukamoto"):
+                        if failing_family == "ts":
+                            bad = fl.Aggregated("o", -3.0, 7.0, agg_op, [fl.Activated(fl.Constant("c", 1.0), 0.5), fl.Activated(fl.Linear("bad", [1.0] * (len(engine.input_variables) + 3), engine), 0.5)])
+                        else:
+                            bad = fl.Aggregated("o", -3.0, 7.0, agg_op, [fl.Activated(fl.Ramp("r", 0.0, 1.0), 0.5), fl.Activated(fl.Ramp("r2", 0.0, 1.0), np.array([0.5, 0.25, 0.125]) if not batch else np.ones(batch + 1) / 2)])
+                        try:
+                            dz.defuzzify(bad)
+                            ctx.hit("event:failing fuzzy output accepted")
+                        except Exception:
+                            ctx.hit("event:defuzzification gave up part-way")
+                        for good in (fl.Aggregated("o", 0.0, 2.0, agg_op, [fl.Activated(fl.Ramp("up", 0.0, 2.0), 0.25), fl.Activated(fl.Ramp("down", 2.0, 0.0), 0.5)]), fl.Aggregated("o", 0.0, 2.0, agg_op, [fl.Activated(fl.Constant("k", 1.5), 0.25), fl.Activated(fl.Constant("m", 0.5), 0.5)])):
+                            try:
+                                dz.defuzzify(good)
+                            except Exception:
+                                pass  # judged by the monitor
+                    mon.declared = {}
             # the same Aggregated object again with other contents (first emptied, then terms of possibly another kind)
             if family != "mixed":
                 engine2, specs2, acts2, _, family2 = gen_set(fl, rnd, 0)
@@ -365,6 +389,7 @@ def run(ctx):
                 ctx.sample("set", {"family": family, "aggregation": aggregation, "set": out.parameters(), "terms": [str(t) for _, t in specs], "WeightedAverage": safe(lambda: fl.WeightedAverage().defuzzify(out))})
         probe.report(ctx)
         reach.report(ctx)
+    ctx.require("event:defuzzification gave up part-way")
     ctx.require("hook:WeightedAverage.defuzzify", "hook:WeightedSum.defuzzify", "hook:Aggregated.grouped_terms", "hook:Aggregated.activation_degree", "law:zero-degree insertion", "piece:mixed-kinds", "piece:zero-degree-member", "piece:repeated-term-grouped", "piece:nan:no-activations", "piece:nan:all-weights-zero", "law:average-of-constants-bounded", "calls:WeightedAverage:batch", "calls:WeightedSum:batch", "event:aggregated object reused with other contents")
     for k in ("WeightedAverage", "WeightedSum"):
         ctx.require(f"piece:{k}:Automatic->TakagiSugeno", f"piece:{k}:Automatic->Tsukamoto", f"piece:{k}:Automatic->Automatic", f"piece:{k}:TakagiSugeno->TakagiSugeno", f"piece:{k}:Tsukamoto->Tsukamoto")
